@@ -347,9 +347,19 @@ def later_script_case(ctx, case):
         else:
             F.add_plugin('check_template', ct_plugin)
             glob.append(lambda: F.remove_plugin('check_template', ct_plugin))
-    run_contracts = contracts
+    # the verdict of these lists rarely depends on the contract call, so the calls themselves are counted on both sides
+    class CountingAbi:
+        def __init__(self, inner):
+            self.inner, self.n = inner, 0
+
+        def abi(self, args):
+            self.n += 1
+            return self.inner.abi(args)
+    impl_c1, ref_c1 = CountingAbi(contracts[b'c1']), CountingAbi(contracts[b'c1'])
+    run_contracts = {**contracts, b'c1': impl_c1}
+    contracts = {**contracts, b'c1': ref_c1}
     if mode == 'contract-global':
-        F.add_contract(b'c1', contracts[b'c1'])
+        F.add_contract(b'c1', impl_c1)
         glob.append(lambda: F.remove_contract(b'c1'))
         run_contracts = {}
     env.Rand.reset(b'diff')
@@ -371,6 +381,9 @@ def later_script_case(ctx, case):
         return
     want = ref[0] == 'ok' and len(ref[1]) == 1 and bytes(ref[1][0]) == b'\xff' and type(ref[1][0]).__name__ != 'Wild'
     sigbase = {'config': name.split(' ')[0] + ' ' + name.split(' ')[1], 'where': 'script %d of run_auth_scripts' % (pos + 1)}
+    if impl_c1.n != ref_c1.n:
+        ctx.violation({**sigbase, 'why': 'contract call count', 'probe': pname},
+                      f'config "{name}" context {ctxkinds} position {pos}: contract c1 called {impl_c1.n} times, reference {ref_c1.n}')
     ctx.outcome('auth:%s' % v)
     if v is not want and not (ref[0] == 'ok' and any(type(x).__name__ == 'Wild' for x in ref[1])):
         ctx.violation({**sigbase, 'why': 'verdict', 'probe': pname}, f'config "{name}" context {ctxkinds} position {pos}: {v!r}, reference {want}')
